@@ -72,8 +72,27 @@ def blank_end_tags_unseen(src, recs, hm):
     return [list(r['close']) for r in recs if r['close'] and src[r['close'][1] - 2].isspace() and tuple(r['close']) not in seen]
 
 
+def kept_options(xml):
+    "ONE options dictionary kept by the caller across documents, its `xml` flag switched per document; `special` and `empty` spell out the defaults"
+    if 'special' not in KEPT:
+        from emmet.html_matcher.utils import default_special, default_empty
+        KEPT['special'] = {k: (list(v) if v is not None else None) for k, v in default_special.items()}
+        KEPT['empty'] = list(default_empty)
+    KEPT['xml'] = xml
+    return KEPT
+
+
+KEPT = {}
+DOCS = [0]
+
+
 def check_doc(src, recs, xml, ctx, hm, positions=None, domain='d1'):
-    opt = {'xml': xml}
+    DOCS[0] += 1
+    if DOCS[0] % 2 or positions is not None:
+        opt = kept_options(xml)
+        ctx.ev('document:kept-options')
+    else:
+        opt = {'xml': xml}
     ctx.ev('document')
     docase = {'src': src, 'xml': xml, 'truth': gen_html.to_json(recs), 'domain': domain}
     if domain == 'd2':
@@ -216,6 +235,8 @@ def replay(case, ctx):
     from emmet import html_matcher as hm
     recs = gen_html.from_json(case['truth'])
     gen_html.self_check(case['src'], recs)
+    # the kept options dictionary has been through a document of the other mode before
+    core.call(hm.match, '<p class="a">x</p><script>1<2</script>', 1, kept_options(not case['xml']))
     check_doc(case['src'], recs, case['xml'], ctx, hm, positions=None if case.get('retained') else [case['pos']], domain=case.get('domain', 'd1'))
     HELD.verify(ctx)
 
